@@ -20,6 +20,8 @@ ASSUMPTIONS = ["user-name templates without '%' (the handler passes the template
 
 
 def nontrivial(c):
+    if c.kind != "download":
+        return True
     return c.fields[5] == "ok"
 
 
